@@ -909,7 +909,9 @@ def run(ctx):
         ctx.cov["dev_nolean"] = True
         ctx.cov["obligations"], ctx.cov["discharged"] = 1, 0
     else:
-        ctx.lean_stage()
+        kit.gen_stage(ctx)
+        ctx.lean_stage(extra_props=("Gen",))
+        ctx.notes.append("model tie #2: _skip_preconditioning and the predicate of tearfree grafting._mask_skipped regenerated from the source by harness/py2lean.py on this run; bridge theorems PrecondVerif.GenProps.C05.* prove them equal to Graft.dsSkip / Graft.tfMaskSkipped")
     const_stage(ctx)
     tasks = gen_tasks(ctx.tier, ctx.seed)
     ctx.cov["rule"] = (
